@@ -146,6 +146,9 @@ pub struct CaseB {
     /// (the AbandonRequest needs a message id of its own)
     #[serde(default)]
     kinds: Vec<u8>,
+    /// if set, the counter starts here instead of `below_max` below 2^31-1 (octet boundaries of the INTEGER encoding)
+    #[serde(default)]
+    start: Option<i32>,
     script: Vec<Act>,
     probes: u8,
     chunks: Vec<usize>,
@@ -157,8 +160,8 @@ fn strat_b(_: &Ctx) -> BoxedStrategy<CaseB> {
     let handle = vec(simops::single_strat(), 1..4);
     let handles = prop_oneof![6 => vec(handle.clone(), 1..6), 1 => vec(handle, 29..40)];
     let act = prop_oneof![4 => any::<u16>().prop_map(Act::AnswerOne), 2 => Just(Act::AnswerAll), 2 => (1u8..6).prop_map(Act::PrePush), 2 => Just(Act::Rewind)];
-    (0u8..8, vec(id_near_edges(), 0..8), handles, vec(act, 1..12), 0u8..4, crate::props::c01::chunk_plan(), any::<u64>(), prop_oneof![1 => Just(vec![]), 2 => vec(0u8..6, 1..9)])
-        .prop_map(|(below_max, phantom, handles, script, probes, (chunks, yields), sched, kinds)| CaseB { below_max, phantom, handles, kinds, script, probes, chunks, yields, sched })
+    (0u8..8, vec(id_near_edges(), 0..8), handles, vec(act, 1..12), 0u8..4, crate::props::c01::chunk_plan(), any::<u64>(), prop_oneof![1 => Just(vec![]), 2 => vec(0u8..6, 1..9)], proptest::option::weighted(0.25, (proptest::sample::select(&[127i32, 128, 255, 256, 32767, 32768, 65535, 65536, 8388607, 8388608, 16777215, 16777216, 1073741823][..]), 0i32..4).prop_map(|(b, d)| b - d)))
+        .prop_map(|(below_max, phantom, handles, script, probes, (chunks, yields), sched, kinds, start)| CaseB { below_max, phantom, handles, kinds, start, script, probes, chunks, yields, sched })
         .boxed()
 }
 
@@ -169,7 +172,7 @@ pub fn check_b(c: &CaseB, obs: &mut Obs) -> Result<(), Fail> {
         let conn = sim::connect();
         {
             let mut t = conn.msgmap.lock().unwrap();
-            t.0 = MAX - cc.below_max as i32;
+            t.0 = cc.start.unwrap_or(MAX - cc.below_max as i32);
             t.1 = cc.phantom.iter().copied().collect();
         }
         conn.wire.with(|w| {
@@ -439,6 +442,9 @@ pub fn check_b(c: &CaseB, obs: &mut Obs) -> Result<(), Fail> {
     }
     if crossed {
         obs.label("crossed-wrap-point");
+    }
+    if c.start.is_some() {
+        obs.label("start-at-octet-boundary");
     }
     if abandons > 0 {
         obs.label("abandon-requests-id-checked");
